@@ -943,3 +943,25 @@ V("C09", "ks-energy-uses-position", GEOC, "    fvec4 r_ho = r_h-r_o;", "    fvec
 V("C09", "closest-contact-absolute", GEOC, "            fvec4 delta = pos1-pos2;", "            fvec4 delta = pos1;", "C09-R1", "find_closest_contact")
 V("C09", "twin-rg-centre-by-broadcast", "mdtraj/geometry/rg.py", "    centered = (xyz.transpose((1, 0, 2)) - mu).transpose((1, 0, 2))", "    centered = xyz - mu[:, None, :]", None)
 V("C09", "twin-drid-difference-reversed", "mdtraj/geometry/src/dridkernels.cpp", "        fvec4 r = x-y;", "        fvec4 r = y-x;", None)
+
+# ---------------------------------------------------------------- rules added after the sub-agent changes
+SELF = "mdtraj/core/selection.py"
+V("C12", "chain-check-first-two-operands", SELF, "            if any(isinstance(c, Literal) for c in self.comparators):", "            if any(isinstance(c, Literal) for c in self.comparators[:2]):", "C12-R8")
+V("C12", "literal-by-slicing", SELF, '        return ast.parse(self.token, mode="eval").body', '        return ast.Constant(value=self.token[1:-1]) if self.token[0] in "\'\\"" else ast.parse(self.token, mode="eval").body', "C12-R8")
+V("C12", "twin-literal-parse-positional", SELF, '        return ast.parse(self.token, mode="eval").body', '        return ast.parse(self.token, "<string>", "eval").body', None)
+V("C13", "sphere-azimuth-off-by-one", SA, "    phi = i * inc;", "    phi = (i + 1) * inc;", "C13-R5")
+V("C13", "sphere-ring-radius", SA, "    r = sqrt(1.0 - y*y);", "    r = sqrt(1.0 - y);", "C13-R5")
+V("C13", "twin-sphere-level-refactored", SA, "    y = i * offset - 1.0 + (offset / 2.0);", "    y = (2 * i + 1) * (offset / 2.0) - 1.0;", None)
+V("C14", "twin-fallback-guard-operands-swapped", GEOC, "            if (pc_index < 0 || po_index < 0) {", "            if (po_index < 0 || pc_index < 0) {", None)
+V("C14", "fallback-guard-only-carbon", GEOC, "            if (pc_index < 0 || po_index < 0) {", "            if (pc_index < 0) {", "C14-R3")
+V("C15", "parallel-bulge-threshold", DCP, "bulge = (jbj > jbi) && ((jbj - jei < 6 && ibj - iei < 3) || (jbj - jei < 3));", "bulge = (jbj > jbi) && ((jbj - jei < 5 && ibj - iei < 3) || (jbj - jei < 3));", "C15-R4")
+V("C11", "twin-adjacency-order", "mdtraj/core/topology.py", "            atom_bonds[atom1.index].append(atom2.index)\n            atom_bonds[atom2.index].append(atom1.index)", "            atom_bonds[atom2.index].append(atom1.index)\n            atom_bonds[atom1.index].append(atom2.index)", None)
+V("C11", "adjacency-one-direction", "mdtraj/core/topology.py", "            atom_bonds[atom1.index].append(atom2.index)\n            atom_bonds[atom2.index].append(atom1.index)", "            atom_bonds[atom1.index].append(atom2.index)", "C11-R5")
+LMPF = "mdtraj/formats/lammpstrj.py"
+V("C01", "lammps-reader-drops-yz", LMPF, "            ylo = box[1, 0] - np.min([0.0, yz])", "            ylo = box[1, 0]", "C01-R7")
+V("C01", "twin-lammps-offset-order", LMPF, "            xlo_bound = xlo + np.min([0.0, xy, xz, xy + xz])", "            xlo_bound = xlo + np.min([0.0, xz, xy + xz, xy])", None)
+V("C17", "lammps-writer-max-without-sum", LMPF, "            xhi_bound = xhi + np.max([0.0, xy, xz, xy + xz])", "            xhi_bound = xhi + np.max([0.0, xy, xz])", "C17-R6")
+V("C01", "gro-time-two-decimals", "mdtraj/formats/gro.py", '            comment += ", t= %s" % time', '            comment += ", t= %.2f" % time', "C01-R7")
+V("C01", "twin-gro-time-format-call", "mdtraj/formats/gro.py", '            comment += ", t= %s" % time', '            comment += ", t= {}".format(time)', None)
+V("C08", "hydrogen-store-only-when-oriented", GEOC, "                r_n.store(hcoords);\n            } else {", "            } else {", "C08-R4")
+V("C05", "contacts-ignore-periodic", "mdtraj/geometry/contact.py", "periodic=periodic", "periodic=True", "C05-R6", count=2)
